@@ -7,6 +7,15 @@ BASE_NOTE = ("Trusted: Coq 8.16.1 kernel (vm_compute for finite sweeps, no nativ
              "(Print Assumptions per theorem is checked on every run), tools/py2v.py translator, ExtrOcamlBasic extraction + "
              "ocaml/driver.ml, the Python correspondence harness; CPython/numpy behaviour is modelled, not verified.")
 CLAIMED = {
+ "C14": dict(
+   text="Theorems universally quantified over backends satisfying a contract (`conforming B`: decode(encode rs) = rs from any position, chunked feeding = one-shot, "
+        "seek-then-read = skipn, the appender continues a stream, what follows the stream is recoverable, serial variant always constructs) - no axiom, and the contract is "
+        "proved satisfiable by a witness backend: whole-file, chunked-write, cursor (seek/read histories), non-seekable-with-fallback and append reads of the compressed file "
+        "equal those of the uncompressed file of the same data; the decision code translated from LasWriter.__init__ / open_las / LasData.write equals the documented rule "
+        "(explicit do_compress wins, else .laz case-insensitively for a path, else backend given); compressed-bit functions swept over all ids; LasZip-record discipline as an "
+        "invariant over write/open/touch/append histories (exactly one in a compressed file, hidden after read, never leaked or duplicated). Harness: fake_lazrs LAZ vs LAS.",
+   design="5/C14", technique="Coq proof: transparency under an abstract backend contract (Section hypotheses closed into forall), translated decision functions, VLR-discipline invariant; fake backend differential",
+   note=BASE_NOTE + " partial: the real lazrs/laszip codecs are absent and not modelled - the property is conditional on the contract; one open known finding (empty LAZ + EVLRs + non-seekable source)."),
  "C08": dict(
    text="Theorems: any well-formed (E)VLR list is read back equal and in order (induction over the list; user id and description are fixed-width NUL-padded "
         "fields - the record-header layouts extracted from VLRList.write_to/read_from equal the 54/60-byte specification layouts), an oversize VLR payload is refused; "
@@ -182,7 +191,7 @@ m = {
  "engines": [{"name": "coq-proof+correspondence", "path": "/verif/check", "serves_properties": sorted(CLAIMED),
               "kind_free_text": "Coq 8.16 theorems over a Gallina model (partly regenerated from the source by tools/py2v.py), extracted OCaml model run against laspy on the same inputs, property oracle search for a failing input"}],
  "checks": checks,
- "not_applicable": [{"property_id": p, "reason": "not claimed yet: model and proofs for this property are still being built (see DESIGN.md section 5)"} for p in ALL if p not in CLAIMED],
+ "not_applicable": [{"property_id": p, "reason": "not claimed: no check built"} for p in ALL if p not in CLAIMED],
  "notes": "fix: commits in /repo are recorded in known_findings.json. See DESIGN.md.",
 }
 with open(os.path.join(HERE, "MANIFEST.json"), "w") as f:
